@@ -139,7 +139,9 @@ int cp_sokdl_ver(const bn_t c, const bn_t s, const uint8_t *msg, size_t len,
 		bn_read_bin(v, h, RLC_MD_LEN);
 		bn_mod(v, v, n);
 
-		if (bn_cmp(v, c) == RLC_EQ) {
+		/* The response lies in [0, n - 1] (c is compared with v < n). */
+		if (bn_sign(s) == RLC_POS && bn_cmp(s, n) == RLC_LT &&
+				bn_cmp(v, c) == RLC_EQ) {
 			result = 1;
 		}
 	}
@@ -316,7 +318,12 @@ int cp_sokor_ver(const bn_t c[2], const bn_t s[2], const uint8_t *msg,
 		bn_sub(z, z, c[1]);
 		bn_mod(z, z, n);
 
-		if (bn_is_zero(z)) {
+		/* All challenges and responses lie in [0, n - 1]. */
+		if (bn_is_zero(z) &&
+				bn_sign(c[0]) == RLC_POS && bn_cmp(c[0], n) == RLC_LT &&
+				bn_sign(c[1]) == RLC_POS && bn_cmp(c[1], n) == RLC_LT &&
+				bn_sign(s[0]) == RLC_POS && bn_cmp(s[0], n) == RLC_LT &&
+				bn_sign(s[1]) == RLC_POS && bn_cmp(s[1], n) == RLC_LT) {
 			result = 1;
 		}
 	}
